@@ -13,6 +13,7 @@ import PdfVerif.Lemmas.XrefTable
 import PdfVerif.Lemmas.XrefScan
 import PdfVerif.Lemmas.XrefFind
 import PdfVerif.Lemmas.XrefHist
+import PdfVerif.Lemmas.XrefChain
 
 namespace PdfVerif.Props.C02
 
@@ -297,6 +298,34 @@ theorem C02_chain_order (ph : Phys) (p1 p2 p3 : Nat) (d1 d2 d3 : SecDesc) (s1 s2
   simp [readXrefFrom, chainOrder, Trailer.get, h1, h2, h3, l1, l2, l3, List.foldlM, n21, n31, n32, d12, d13, d23,
     bind, Except.bind, Except.map, pure, Except.pure]
 
+
+/-- The trailer chain of ANY number of revisions: starting at `start` (what `find_xref` returned),
+every revision being a plain section (classic table or cross-reference stream, `/Prev` → older one)
+or a hybrid pair (table with `/XRefStm` and `/Prev`; its stream carries neither), at pairwise different
+positions, `read_xref_from` returns the sections newest first — the table of a hybrid revision
+directly before its stream — and has visited exactly their positions.  Generalises `C02_chain_order`. -/
+theorem C02_chain (ph : Phys) (start : Nat) (ps : List Nat) (L : List (Section × Trailer))
+    (h : Chain ph (some start) ps L) (hnd : ps.Nodup) (fuel : Nat) (hf : ps.length ≤ fuel) :
+    readXrefFrom ph fuel start ([], []) = .ok (L, ps.reverse) := by
+  have := follow_chain h fuel [] [] hf (by intro p _ hm; cases hm) hnd
+  simpa [follow] using this
+
+/-- Non-vacuity: newest revision at 300 (`/Prev 200`), a hybrid revision at 200 (`/XRefStm 150`,
+`/Prev 100`), the original at 100. -/
+def exChainPh : Phys :=
+  ⟨[], [(100, .stream 2 none [1, 1, 1] [] ⟨none, none, some 1, none⟩),
+        (150, .stream 2 none [1, 1, 1] [] ⟨none, none, none, none⟩),
+        (200, .stream 2 none [1, 1, 1] [] ⟨some 100, some 150, some 1, none⟩),
+        (300, .stream 2 none [1, 1, 1] [] ⟨some 200, none, some 1, none⟩)], []⟩
+
+example : (readXrefFrom exChainPh 4 300 ([], [])).map (fun r => (r.1.map (·.2.prev), r.2)) =
+    .ok ([some 200, some 100, none, none], [100, 150, 200, 300]) := by
+  have hc : Chain exChainPh (some 300) [300, 200, 150, 100] _ :=
+    Chain.plain (p := 300) rfl rfl rfl
+      (Chain.hybrid (p := 200) (x := 150) rfl rfl rfl rfl rfl rfl rfl
+        (Chain.plain (p := 100) rfl rfl rfl Chain.done))
+  rw [C02_chain exChainPh 300 _ _ hc (by decide) 4 (by decide)]
+  rfl
 
 /-- Non-vacuity for the loaders: `0 2` (free head, object 1) and `5 1`, CR-only line ends, entries
 ending in space-CR, `trailer` followed by the dictionary on the same line. -/
